@@ -237,6 +237,10 @@ def program(draw, max_sessions=2, max_calls=3, max_objs=4, forms=None, names=Non
     # how the objects of a call are handed to write_segment: the documented list, or another iterable the writer accepts
     prog['container'] = draw(st.sampled_from(['list', 'list', 'list', 'tuple', 'iterator']))
     if dest == 'path':
+        # the data file need not be called *.tdms
+        prog['file_name'] = draw(st.sampled_from(['prog.tdms', 'prog.tdms', 'prog.tdms', 'prog.dat', 'prog', 'prog.TDMS',
+                                                  'a.b.tdms', 'prog.tdms.bak']))
+    if dest == 'path':
         how = draw(st.sampled_from([None, None, 'prelude', 'reuse_writer']))
         if how == 'prelude':
             # the path already holds a file written by an earlier writer (same groups and channels): mode 'w' replaces it
@@ -589,7 +593,7 @@ def run_program(prog, workdir):
     import os
     from nptdms import TdmsWriter
     model = ProgramModel()
-    path = os.path.join(workdir, 'prog.tdms') if prog['dest'] == 'path' else None
+    path = os.path.join(workdir, prog.get('file_name') or 'prog.tdms') if prog['dest'] == 'path' else None
     stream = io.BytesIO() if path is None else None
     istream = io.BytesIO() if prog['index'] == 'stream' else None
     first = True
@@ -629,7 +633,10 @@ def run_program(prog, workdir):
                 model.add_call(call)
     if path is not None:
         data = open(path, 'rb').read()
-        index = open(path + '_index', 'rb').read() if prog['index'] else None
+        # the index of <path> is <path>_index (the name the reader looks for), whatever the extension of <path>
+        index = None
+        if prog['index']:
+            index = open(path + '_index', 'rb').read() if os.path.exists(path + '_index') else b''
     else:
         data = stream.getvalue()
         index = istream.getvalue() if istream is not None else None
